@@ -233,6 +233,17 @@ func c13Eval(w *mc.W, cas c13Case) {
 		// every member matches through every query method (checked once per set: empty query case)
 		if len(query) == 0 {
 			sweep := items
+			if len(items) > 64 && len(items) <= c13FullSweepMax(c) {
+				// every member by the single-item query (O(N) each; sets of up to 8193 (thorough 32769) elements, N^2 code words): a slip
+				// at one particular rank of the sorted values (a block boundary of a skip index, rank 128 or
+				// 256) is hit whichever rank it is
+				for _, it := range items {
+					if ok, _ := f.Match(key, it); !ok {
+						fail("member-not-matched/Match", fmt.Sprintf("%x", it))
+						break
+					}
+				}
+			}
 			if len(items) > 64 { // each query is O(N): first 8, last 8 and 16 evenly spaced members
 				sweep = append(append([][]byte{}, items[:8]...), items[len(items)-8:]...)
 				for k := 1; k <= 16; k++ {
@@ -377,7 +388,7 @@ func runC13(c *mc.Ctx) {
 		for _, pm := range []c13PM{{19, 784931}, {2, 5}, {32, 1 << 32}, {0, 3}} {
 			sizes := mc.Pick(c, []int{5, 6, 8, 16, 33}, []int{5, 6, 7, 8, 9, 16, 17, 33, 100})
 			if pm.P == 19 { // size ladder (one configuration): counts beyond 8, 10, 15 and 16 bits
-				sizes = append(sizes, mc.Pick(c, []int{257, 1025, 70001}, []int{257, 1025, 32769, 65537, 70001, 140003})...)
+				sizes = append(sizes, mc.Pick(c, []int{257, 1025, 4097, 8193, 70001}, []int{257, 1025, 2049, 4095, 4096, 4097, 8193, 16385, 32769, 65537, 70001, 140003})...)
 			}
 			for _, n := range sizes {
 				var items [][]byte
@@ -634,3 +645,6 @@ func c13SelfTest() {
 		panic("reference SipHash-2-4 fails the paper's test vector")
 	}
 }
+
+// c13FullSweepMax: up to which set size every member is queried through Match (quadratic)
+func c13FullSweepMax(c *mc.Ctx) int { return mc.Pick(c, 8193, 32769) }
